@@ -7,14 +7,19 @@ hand-reviewed list with a verdict per site; `Props/C08.lean` compares them.  Cor
 -/
 namespace PV.MapRange
 
-/-- One site.  Types and callee names only — no local names, no line numbers. -/
+/-- what the loop body feeds -/
+inductive SinkKind | append | write | concat | floatsum | pick
+  deriving DecidableEq, Repr
+
+/-- One site.  Types only — no local names, no line numbers, no callee names. -/
 structure Site where
   file : String
   fn : String
   mapType : String
+  kind : SinkKind
   sink : String
   sorted : Bool
-  flows : List String
+  returned : Bool
   deriving DecidableEq, Repr
 
 /-- Reviewer's verdict on a site. -/
